@@ -16,18 +16,28 @@ shape by general, semantics-preserving rules (nothing here looks at the text of 
                  arguments) or by an explicit assignment; its locals are renamed when they collide
   constants  a name that is never bound in the function and has exactly one module-level assignment to a number, a
              negated number or a tuple of numbers is replaced by that value
+  walrus     `(x := E)` that is the first thing a simple statement / an `if` test evaluates is hoisted: `x = E` in front
+  tryelse    `try: B except ...: <ends in raise/return> else: E` (no finally) becomes the try followed by E
+  partial    `f = partial(g, ...)` used once, as the callee of the first call the next statement evaluates, is merged into
+             that call (names / constants or call-free arguments only)
   ifexp      `t = a if c else b` / `return a if c else b` become if / else statements
   polarity   `if not c: A else: B` becomes `if c: B else: A`
   sink       `if c: x = A else: x = B` directly followed by `return x` becomes `if c: return A else: return B`
   flatten    `if c: <ends in raise/return> else: R` becomes `if c: ...` followed by R (guard clause form); the mirrored form
              with the terminating branch in the else becomes `if not c: ...` followed by the other branch
   default    `x = e1` directly followed by `if c: x = e2` (e1 a plain name / constant - something that cannot raise)
-             becomes `if c': x = e2' else: x = e1` with x replaced by e1 in c and e2
+             becomes `if c': x = e2' else: x = e1` with x replaced by e1 in c and e2; the overriding assignment may sit in
+             `try: x = e2 except ...: <ends in raise>` (handlers that do not read x): the try moves into the branch with it
   temp       `x = E` directly followed by `return x` / `t = x` (x not used again) becomes `return E` / `t = E`; a call-free
-             E used once in the directly following simple, call-free statement is substituted there
+             E used once in the directly following simple, call-free statement is substituted there; ANY E (calls too) is
+             folded into the directly following return / assignment / expression statement when its single use is
+             evaluated unconditionally and before everything else of that statement except constants and lookups of
+             names / attribute chains that are not rooted at a local or parameter (`np.random.binomial`, a module-level
+             function): the order of all effects is then unchanged
   alias      a local bound exactly once, at the top level of the function, to a name, a constant, an attribute chain or an
-             arithmetic / comparison expression over names and constants (then only if the local is never mutated or handed
-             to a call) is replaced by that expression at every later use that no intervening statement can have made stale (a store to
+             arithmetic / comparison expression over names and constants or a (nested) list / tuple display of such (then
+             only if the local is never mutated, compared by identity or handed to a call other than the known pure ones)
+             is replaced by that expression at every later use that no intervening statement can have made stale (a store to
              any part of the chain or to one of its names, or - for attribute chains - any call that is not a known pure
              function, kills the alias: the remaining uses keep the local's name and the extraction fails closed on them);
              the assignment is dropped when no use is left
@@ -302,6 +312,26 @@ def p_flatten(stmts: list) -> list:
     return out
 
 
+def _in_reraising_try(block: list):
+    """the single statement of `block`, looked for through `try: <one statement> except ...: <ends in raise>` wrappers"""
+    if len(block) != 1:
+        return None
+    st = block[0]
+    while _reraising_try(st):
+        if len(st.body) != 1:
+            return None
+        st = st.body[0]
+    return st
+
+
+def _handlers_of(block: list):
+    out, st = [], block[0] if len(block) == 1 else None
+    while st is not None and _reraising_try(st):
+        out.extend(h for h in st.handlers)
+        st = st.body[0] if len(st.body) == 1 else None
+    return out
+
+
 def p_default(stmts: list) -> list:
     out, i = [], 0
     while i < len(stmts):
@@ -310,14 +340,15 @@ def p_default(stmts: list) -> list:
         if isinstance(st, ast.Assign) and len(st.targets) == 1 and isinstance(st.targets[0], ast.Name) \
                 and isinstance(st.value, (ast.Name, ast.Constant)) and isinstance(nxt, ast.If) and not nxt.orelse:
             x = st.targets[0].id
-            n1, _ = _single_assign(nxt.body)
-            if n1 == x:
+            inner = _in_reraising_try(nxt.body)           # the assignment itself, possibly inside `try: ... except: raise`
+            n1, _ = _single_assign([inner]) if inner is not None else (None, None)
+            if n1 == x and not any(_loads(h, x) for h in _handlers_of(nxt.body)):
                 test = nxt.test
                 if _loads(test, x):
                     test = _Subst({x: st.value}).visit(copy.deepcopy(test))
-                if not _loads(nxt.body[0].value, x) or _simple(st.value):
-                    if _loads(nxt.body[0].value, x):
-                        nxt.body[0].value = _Subst({x: st.value}).visit(nxt.body[0].value)
+                if not _loads(inner.value, x) or _simple(st.value):
+                    if _loads(inner.value, x):
+                        inner.value = _Subst({x: st.value}).visit(inner.value)
                     nxt.test = test
                     nxt.orelse = [st]
                     ast.fix_missing_locations(nxt)
@@ -338,12 +369,173 @@ def _pure_expr(node: ast.AST) -> bool:
     return not _has_impure_call(node)
 
 
-def p_temp(stmts: list, fn_body_ref: list) -> list:
+def _eval_children(node: ast.AST):
+    """sub-expressions in evaluation order, only those that are evaluated unconditionally; None = order not known"""
+    if isinstance(node, ast.Call):
+        if any(isinstance(a, ast.Starred) for a in node.args) or any(k.arg is None for k in node.keywords):
+            return None
+        return [node.func] + list(node.args) + [k.value for k in node.keywords]
+    if isinstance(node, ast.Attribute) and isinstance(node.ctx, ast.Load):
+        return [node.value]
+    if isinstance(node, ast.BinOp):
+        return [node.left, node.right]
+    if isinstance(node, ast.UnaryOp):
+        return [node.operand]
+    if isinstance(node, ast.Compare):
+        return [node.left, node.comparators[0]] if len(node.ops) == 1 else None
+    if isinstance(node, ast.Subscript) and isinstance(node.ctx, ast.Load):
+        return [node.value, node.slice]
+    if isinstance(node, (ast.List, ast.Tuple)) and isinstance(node.ctx, ast.Load):
+        return None if any(isinstance(e, ast.Starred) for e in node.elts) else list(node.elts)
+    if isinstance(node, (ast.Return, ast.Expr)):
+        return [node.value] if node.value is not None else []
+    if isinstance(node, ast.Assign):
+        return [node.value]                 # the targets are evaluated after the value
+    if isinstance(node, ast.BoolOp):
+        return [node.values[0]]             # the other operands are evaluated conditionally
+    if isinstance(node, ast.IfExp):
+        return [node.test]
+    if isinstance(node, ast.NamedExpr):
+        return [node.value]
+    return None
+
+
+def _first_evaluated(node: ast.AST, is_target, local_names: set) -> bool:
+    """the single sub-expression of `node` selected by `is_target` is evaluated unconditionally, and everything evaluated
+    before it is a constant or the lookup of a name / attribute chain that is not rooted at a local of the function (a
+    module, a module-level function): then `x = E` directly before `node` may be folded into its single use in `node`
+    (or a walrus at that place hoisted in front of the statement) whatever E does"""
+    if is_target(node):
+        return True
+    kids = _eval_children(node)
+    if kids is None:
+        return False
+    for c in kids:
+        if any(is_target(n) for n in ast.walk(c)):
+            return _first_evaluated(c, is_target, local_names)
+        if isinstance(c, ast.Constant):
+            continue
+        if _chain(c) and _root(c) not in local_names and all(isinstance(n.ctx, ast.Load) for n in ast.walk(c)
+                                                               if isinstance(n, (ast.Name, ast.Attribute))):
+            continue
+        return False
+    return False
+
+
+def _is_load_of(x: str):
+    return lambda n: isinstance(n, ast.Name) and n.id == x and isinstance(n.ctx, ast.Load)
+
+
+def p_walrus(stmts: list, local_names: set) -> list:
+    """`if (x := E) <rest of test>:` / `t = f((x := E))` / `return ...(x := E)...` with the walrus evaluated first and
+    unconditionally becomes `x = E` followed by the statement reading x"""
+    out = []
+    for st in stmts:
+        head = st.test if isinstance(st, ast.If) else st if isinstance(st, (ast.Assign, ast.Return, ast.Expr)) else None
+        if head is not None:
+            ws = [n for n in ast.walk(head) if isinstance(n, ast.NamedExpr)]
+            if len(ws) == 1 and isinstance(ws[0].target, ast.Name) and not _loads(ws[0].value, ws[0].target.id) \
+                    and not any(isinstance(n, (ast.Lambda, ast.ListComp, ast.SetComp, ast.DictComp, ast.GeneratorExp))
+                                for n in ast.walk(head)) \
+                    and _first_evaluated(head, lambda n: n is ws[0], local_names | {ws[0].target.id}):
+                w = ws[0]
+                x = w.target.id
+                # loads of x elsewhere in the head come after the walrus (it is evaluated first): they read the new value
+                pre = ast.copy_location(ast.Assign(targets=[ast.Name(id=x, ctx=ast.Store())], value=w.value), st)
+
+                class R(ast.NodeTransformer):
+                    def visit_NamedExpr(self, node):
+                        return ast.copy_location(ast.Name(id=x, ctx=ast.Load()), node) if node is w else node
+                if isinstance(st, ast.If):
+                    st.test = R().visit(st.test)
+                else:
+                    st = R().visit(st)
+                ast.fix_missing_locations(pre)
+                ast.fix_missing_locations(st)
+                out.extend([pre, st])
+                continue
+        out.append(st)
+    return out
+
+
+def p_partial(stmts: list, fn_body_ref: list, local_names: set) -> list:
+    """`f = partial(g, a.., k=v..)` directly followed by a simple statement whose first evaluated part is the only use of
+    f, the call `f(b.., k2=w..)`, becomes that statement with `g(a.., b.., k=v.., k2=w..)`: the partial's arguments are
+    names / constants (or everything is call-free), so evaluating them at the call instead changes nothing"""
+    out, i = [], 0
+    while i < len(stmts):
+        st = stmts[i]
+        nxt = stmts[i + 1] if i + 1 < len(stmts) else None
+        if isinstance(st, ast.Assign) and len(st.targets) == 1 and isinstance(st.targets[0], ast.Name) \
+                and isinstance(st.value, ast.Call) and ast.unparse(st.value.func) in ("partial", "functools.partial") \
+                and st.value.args and isinstance(nxt, (ast.Assign, ast.Return, ast.Expr)):
+            f, pc = st.targets[0].id, st.value
+            g, pargs, pkws = pc.args[0], pc.args[1:], pc.keywords
+            stores = sum(1 for b in fn_body_ref for n in ast.walk(b)
+                         if isinstance(n, ast.Name) and n.id == f and not isinstance(n.ctx, ast.Load))
+            calls = [n for n in ast.walk(nxt) if isinstance(n, ast.Call) and isinstance(n.func, ast.Name) and n.func.id == f]
+            pvals = list(pargs) + [k.value for k in pkws]
+            if stores == 1 and sum(_loads(b, f) for b in fn_body_ref) == 1 and len(calls) == 1 and _chain(g) \
+                    and _root(g) not in local_names \
+                    and not any(isinstance(a, ast.Starred) for a in list(pargs) + list(calls[0].args)) \
+                    and all(k.arg is not None for k in list(pkws) + list(calls[0].keywords)) \
+                    and not ({k.arg for k in pkws} & {k.arg for k in calls[0].keywords}) \
+                    and all(_pure_expr(v) for v in pvals) \
+                    and (all(isinstance(v, (ast.Name, ast.Constant)) for v in pvals)
+                         or not any(_has_impure_call(a) for a in list(calls[0].args) + [k.value for k in calls[0].keywords])) \
+                    and not ({n.id for v in pvals for n in ast.walk(v) if isinstance(n, ast.Name)} & _stored_names(nxt)) \
+                    and _first_evaluated(nxt, lambda n: n is calls[0], local_names):
+                c = calls[0]
+                c.func = g
+                c.args = list(pargs) + list(c.args)
+                c.keywords = list(pkws) + list(c.keywords)
+                ast.fix_missing_locations(nxt)
+                out.append(nxt)
+                i += 2
+                continue
+        out.append(st)
+        i += 1
+    return out
+
+
+def p_tryelse(stmts: list) -> list:
+    """`try: B except ...: <ends in raise / return> else: E` (no finally) is `try: B except ...: ...` followed by E: the
+    statements after the try run exactly when B completed without an exception, as the else block does"""
+    out = []
+    for st in stmts:
+        if isinstance(st, ast.Try) and st.orelse and not st.finalbody and st.handlers \
+                and all(_terminal(h.body) for h in st.handlers):
+            rest, st.orelse = st.orelse, []
+            out.append(st)
+            out.extend(rest)
+            continue
+        out.append(st)
+    return out
+
+
+def p_temp(stmts: list, fn_body_ref: list, local_names: set = frozenset()) -> list:
     """`x = E; return x` -> `return E`;  `x = E; t = x` -> `t = E` when x is not loaded anywhere else"""
     out, i = [], 0
     while i < len(stmts):
         st = stmts[i]
         nxt = stmts[i + 1] if i + 1 < len(stmts) else None
+        if _reraising_try(st) and nxt is not None:
+            # `try: x = E except ...: raise` followed by `return x` / `t = x` (t a plain name - binding it cannot raise)
+            n1, v1 = _single_assign(st.body)
+            if n1 is not None and sum(_loads(s, n1) for s in fn_body_ref) == 1 \
+                    and sum(1 for s in fn_body_ref for n in ast.walk(s)
+                            if isinstance(n, ast.Name) and n.id == n1 and not isinstance(n.ctx, ast.Load)) == 1:
+                if isinstance(nxt, ast.Return) and isinstance(nxt.value, ast.Name) and nxt.value.id == n1:
+                    st.body = [ast.copy_location(ast.Return(value=v1), st.body[0])]
+                    out.append(st)
+                    i += 2
+                    continue
+                if isinstance(nxt, ast.Assign) and isinstance(nxt.value, ast.Name) and nxt.value.id == n1 \
+                        and len(nxt.targets) == 1 and isinstance(nxt.targets[0], ast.Name):
+                    st.body = [ast.copy_location(ast.Assign(targets=nxt.targets, value=v1), st.body[0])]
+                    out.append(st)
+                    i += 2
+                    continue
         if isinstance(st, ast.Assign) and len(st.targets) == 1 and isinstance(st.targets[0], ast.Name) and nxt is not None:
             x = st.targets[0].id
             total = sum(_loads(s, x) for s in fn_body_ref)
@@ -363,6 +555,15 @@ def p_temp(stmts: list, fn_body_ref: list) -> list:
                 if not any(True for _ in _blocks(nxt)) and _loads(nxt, x) == 1 and _pure_expr(st.value) \
                         and isinstance(nxt, (ast.Assign, ast.AugAssign, ast.Return, ast.Expr)) \
                         and not _has_impure_call(nxt):
+                    out.append(_Subst({x: st.value}).visit(nxt))
+                    i += 2
+                    continue
+                # any intermediate result used once, as the first thing the directly following statement evaluates
+                if isinstance(nxt, (ast.Assign, ast.Return, ast.Expr)) and _loads(nxt, x) == 1 \
+                        and not any(isinstance(n, (ast.NamedExpr, ast.Lambda, ast.ListComp, ast.SetComp, ast.DictComp,
+                                                   ast.GeneratorExp, ast.Await, ast.Yield, ast.YieldFrom))
+                                    for n in list(ast.walk(nxt)) + list(ast.walk(st.value))) \
+                        and _first_evaluated(nxt, _is_load_of(x), local_names):
                     out.append(_Subst({x: st.value}).visit(nxt))
                     i += 2
                     continue
@@ -712,6 +913,14 @@ def _arith(node: ast.AST) -> bool:
     return not isinstance(node, (ast.Name, ast.Constant))
 
 
+def _literal_seq(node: ast.AST) -> bool:
+    """list / tuple display (possibly nested) of names, constants and arithmetic over them: a value that is rebuilt
+    equal at every use - interchangeable with the one object as long as it is never mutated, compared by identity or
+    handed to unknown code (`_only_read_as_value`)"""
+    return isinstance(node, (ast.List, ast.Tuple)) and isinstance(node.ctx, ast.Load) and bool(node.elts) and all(
+        isinstance(e, (ast.Name, ast.Constant)) or _arith(e) or _literal_seq(e) for e in node.elts)
+
+
 def _only_read_as_value(body: list, x: str) -> bool:
     """x is never the root of a store / augmented target and never handed to code that could mutate it"""
     for st in body:
@@ -723,6 +932,8 @@ def _only_read_as_value(body: list, x: str) -> bool:
             if isinstance(n, ast.Call) and not _pure_call(n):
                 if any(_loads(a, x) for a in list(n.args) + [k.value for k in n.keywords]) or _root(n.func) == x:
                     return False
+            if isinstance(n, ast.Compare) and any(isinstance(o, (ast.Is, ast.IsNot)) for o in n.ops) and _loads(n, x):
+                return False
     return True
 
 
@@ -770,7 +981,8 @@ def p_alias(fn: ast.FunctionDef):
             active.pop(x, None)
         # 3. does it define a new alias?
         if isinstance(st, ast.Assign) and len(st.targets) == 1 and isinstance(st.targets[0], ast.Name) \
-                and (_simple(st.value) or (_arith(st.value) and _only_read_as_value(body, st.targets[0].id))):
+                and (_simple(st.value) or ((_arith(st.value) or _literal_seq(st.value))
+                                           and _only_read_as_value(body, st.targets[0].id))):
             x = st.targets[0].id
             if store_count.get(x) == 1 and x not in params and not _loads(st.value, x):
                 active[x] = st.value
@@ -809,12 +1021,17 @@ def normalise_function(fn: ast.FunctionDef, module_funcs: dict, helpers: dict, c
     p_constants(fn, consts)
     for _ in range(3):
         before = ast.dump(fn)
+        local_names = _stored_names(fn) | {a.arg for a in ast.walk(fn.args) if isinstance(a, ast.arg)}
+        fn.body = _map_blocks(fn.body, lambda b: p_walrus(b, local_names))
+        fn.body = _map_blocks(fn.body, p_tryelse)
+        fn.body = _map_blocks(fn.body, lambda b: p_partial(b, fn.body, local_names))
         fn.body = _map_blocks(fn.body, p_ifexp)
         fn.body = _map_blocks(fn.body, p_polarity)
         fn.body = _map_blocks(fn.body, p_default)
         fn.body = _map_blocks(fn.body, p_sink)
         fn.body = _map_blocks(fn.body, p_flatten)
-        fn.body = _map_blocks(fn.body, lambda b: p_temp(b, fn.body))
+        local_names = _stored_names(fn) | {a.arg for a in ast.walk(fn.args) if isinstance(a, ast.arg)}
+        fn.body = _map_blocks(fn.body, lambda b: p_temp(b, fn.body, local_names))
         p_alias(fn)
         if ast.dump(fn) == before:
             break
